@@ -582,6 +582,7 @@ package ship
 //@   ensures result.infoProvider == dataProvider && result.dataWriter == dataHandler
 //@   ensures [C04] N1-start: result.smeState == model.CmiStateInitStart && !result.handshakeTimerRunning && result.dataReader == nil
 //@   ensures [C11] N2-open: !result.shutdownOnce.$done && @REP(result) == 0 && !result.$closeScheduled
+//@   establishes result
 
 // ======================= lock discipline (C20) =======================
 //@ guarded ShipConnection.smeState, ShipConnection.smeError by ShipConnection.mux
